@@ -173,7 +173,7 @@ def gen_case(rng, quick):
         kinds = None
     bs = L.gen_basis_specs(rng, nsite, kinds=kinds, qn2=qn2, dense_cap=cap)
     cplx = rng.random() < 0.45
-    mode = ["int", "unit", "wide"][int(rng.integers(3))]
+    mode = ["int", "unit", "wide", "tiny"][int(rng.integers(4))]
     nt = int(rng.integers(1, 13 if quick else 41))
     terms = L.gen_terms(rng, bs, nt, cplx, mode, rich=rng.random() < 0.7, max_support=int(rng.integers(1, 5)))
     if cplx and rng.random() < 0.3:
@@ -185,6 +185,8 @@ def gen_case(rng, quick):
             if k != keep and rng.random() < 0.5 and not L.term_is_complex_matrix(bs, t, bases):
                 t[2] = [t[2][0] if t[2][0] != 0 else 1.0, None]
     offset = float(rng.choice([0.0, 0.0, 0.5, -1.25, 3.0]))
+    if mode == "tiny":
+        offset *= 1e-15
     via = ["terms", "terms", "terms", "opsum", "ham_terms"][int(rng.integers(5))]
     return dict(basis=bs, terms=terms, offset=offset, qn_size=2 if qn2 else 1, via=via, mode=mode, cplx=cplx)
 
@@ -248,6 +250,9 @@ def run_construct(run, case, stats):
             continue
         if status.startswith("exception") and len(kept) == 0:
             run.count("rejected:total-cancellation")
+            continue
+        if case.get("mode") == "tiny" and algo == "qr" and status == "exception:IndexError":
+            run.violation("construct:qr:tiny-scale:IndexError", rep)
             continue
         if status in ("exception:UFuncTypeError", "exception:_UFuncOutputCastingError") and d12_class:
             run.count("D12:hit")
@@ -459,7 +464,11 @@ def search(run, rng, quick):
         except Exception:  # noqa: BLE001
             pass
         # swaps: one sequence per construction algorithm that succeeded (fresh objects: swapping is in place)
-        if len(bs) >= 2:
+        if case["mode"] == "tiny":
+            # operators whose every coefficient is below 1e-12: the swap machinery compares regrouped coefficients with ABSOLUTE
+            # tolerances (known finding "tiny-scale"); construction is checked, swaps are not explored at this scale
+            run.count("tiny-scale:swaps-not-explored")
+        elif len(bs) >= 2:
             for algo in list(built):
                 if rng.random() < 0.75:
                     run_swaps(run, rng, case, algo, built[algo], stats, nswap=int(rng.integers(1, 6)))
